@@ -77,7 +77,7 @@ def run(rep: Report) -> None:
     # variables in their natural order also for a link of more than ten segments
     from . import c04 as _c04
 
-    _c04.run(rep, only_variant="long")
+    _c04.run(rep, only_variant=("long", "merge"))  # (merge: x+[i] is the successor of x[i])
 
 
 def _show(k):
